@@ -154,3 +154,8 @@ package orefafs
 //@   requires[C08] held(nd.mu)
 //@ func (*node).dirEntries
 //@   requires[C08] held(nd.mu)
+
+// removeAll runs under the index write lock taken by RemoveAll.
+//@ func (*OrefaFS).removeAll
+//@   ranges
+//@   requires[C08] wheld(vfs.mu) && rootNode != nil
